@@ -82,6 +82,8 @@ class WfGen:
         self.empty_branch = empty_branch
         self.two_else = two_else
         self.mixed = mixed
+        self.catches = catches
+        self.catch_depth = 0
 
     def fresh(self, k):
         self.n[k] += 1
@@ -103,6 +105,31 @@ class WfGen:
         if self.rng.chance(self.p_if, 100):
             a["if"] = self.cond()
             self.features.add("act-if")
+        if self.catches and self.catch_depth < 2 and self.rng.chance(1, 4):
+            a["catches"] = self.catch_list()
+        return a
+
+    def catch_list(self):
+        self.catch_depth += 1
+        out = []
+        for _ in range(self.rng.range(1, 3)):
+            c = {}
+            on = self.rng.pick([None, "e1", "e2", "e1", "e3"])
+            if on:
+                c["on"] = on
+            n = self.rng.weighted([(0, 1), (1, 4), (2, 1)])
+            c["steps"] = [{"id": self.fresh("s"), "acts": [self.plain_act() for _ in range(self.rng.range(1, 2))]} for _ in range(n)]
+            out.append(c)
+        self.features.add("catch")
+        self.catch_depth -= 1
+        return out
+
+    def plain_act(self):
+        uses = self.rng.weighted([(IRQ, 2), (MSG, 3)])
+        a = {"id": self.fresh("a"), "uses": uses, "key": "kc"}
+        a["key"] = "k" + a["id"]
+        if self.catches and self.catch_depth < 2 and self.rng.chance(1, 6):
+            a["catches"] = self.catch_list()
         return a
 
     def step(self, depth):
@@ -110,6 +137,8 @@ class WfGen:
         if self.rng.chance(self.p_if, 100):
             s["if"] = self.cond()
             self.features.add("step-if")
+        if self.catches and self.catch_depth < 2 and self.rng.chance(1, 5):
+            s["catches"] = self.catch_list()
         use_br = depth > 0 and self.rng.chance(self.p_branches, 100)
         if use_br:
             s["branches"] = self.branches(depth - 1)
